@@ -3583,8 +3583,8 @@ class PyCdlib:
 
         return num_bytes_to_remove
 
-    def _rm_udf_file_ident(self, parent, fi):
-        # type: (udfmod.UDFFileEntry, bytes) -> int
+    def _rm_udf_file_ident(self, parent, fi, encoding=None):
+        # type: (udfmod.UDFFileEntry, bytes, Optional[str]) -> int
         """
         An internal method to remove a UDF File Identifier from the parent
         and remove any space from the Logical Volume as necessary.
@@ -3592,11 +3592,13 @@ class PyCdlib:
         Parameters:
          parent - The parent entry to remove the UDF File Identifier from.
          fi - The file identifier to remove.
+         encoding - The encoding the file identifier is stored in.
         Returns:
          The number of bytes to remove from the ISO.
         """
         num_extents_to_remove = parent.remove_file_ident_desc_by_name(fi,
-                                                                      self.logical_block_size)
+                                                                      self.logical_block_size,
+                                                                      encoding)
         if self.udf_logical_volume_integrity is not None:
             self.udf_logical_volume_integrity.logical_volume_impl_use.num_files -= 1
 
@@ -3667,7 +3669,7 @@ class PyCdlib:
             raise pycdlibexception.PyCdlibInternalError('Cannot remove a UDF record with no parent')
         if rec.file_ident is None:
             raise pycdlibexception.PyCdlibInternalError('Cannot remove a UDF record with no file identifier')
-        return num_bytes_to_remove + self._rm_udf_file_ident(rec.parent, rec.file_ident.fi)
+        return num_bytes_to_remove + self._rm_udf_file_ident(rec.parent, rec.file_ident.fi, rec.file_ident.encoding)
 
     def _add_joliet_dir(self, joliet_path):
         # type: (bytes) -> int
@@ -3916,7 +3918,7 @@ class PyCdlib:
                 # that corresponds to this record.  If the UDF File Ident exists,
                 # and the File Entry is None, this means that it is an "zeroed"
                 # UDF File Entry and we have to remove it by hand.
-                self._rm_udf_file_ident(udf_file_ident.parent, udf_file_ident.fi)
+                self._rm_udf_file_ident(udf_file_ident.parent, udf_file_ident.fi, udf_file_ident.encoding)
                 # We also have to remove the "zero" UDF File Entry, since nothing
                 # else will.
                 num_bytes_to_remove += self.logical_block_size
@@ -4963,7 +4965,7 @@ class PyCdlib:
                 # UDF File Entry.  Just remove the UDF File Identifier, which is
                 # as much as we can do.
                 if ident is not None and ident.parent is not None:
-                    num_bytes_to_remove += self._rm_udf_file_ident(ident.parent, ident.fi)
+                    num_bytes_to_remove += self._rm_udf_file_ident(ident.parent, ident.fi, ident.encoding)
                 # We also have to remove the "zero" UDF File Entry, since nothing
                 # else will.
                 num_bytes_to_remove += self.logical_block_size
@@ -5322,9 +5324,10 @@ class PyCdlib:
 
             # The File Identifier is stored in its own encoding (latin-1 or
             # UTF-16), so look it up the way the lookups do and remove that one.
-            udf_fi = udf_parent.find_file_ident_desc_by_name(udf_name).fi
-            num_extents_to_remove = udf_parent.remove_file_ident_desc_by_name(udf_fi,
-                                                                              self.logical_block_size)
+            udf_fi_desc = udf_parent.find_file_ident_desc_by_name(udf_name)
+            num_extents_to_remove = udf_parent.remove_file_ident_desc_by_name(udf_fi_desc.fi,
+                                                                              self.logical_block_size,
+                                                                              udf_fi_desc.encoding)
             # Remove space (if necessary) in the parent File Identifier
             # Descriptor area.
             num_bytes_to_remove += num_extents_to_remove * self.logical_block_size
